@@ -1,6 +1,6 @@
 SPECIFICATION TSpec
 CONSTANTS
-  Flavour = "ip"
+  Flavour = "coap"
   MaxV = 6
   InitVers = {1}
   InitCaches = {0}
